@@ -110,7 +110,7 @@ func (c verifCam) FPS() int  { return c.fps }
 
 // filerec: the real CPTVFileRecorder driven by commands on stdin, one per line, each
 // acknowledged on stdout:
-//   new <outdir> <constant 0|1> <resx> <resy>   start <thresh>   write <value>   stop   Stop
+//   new <outdir> <constant 0|1> <resx> <resy> [<device name length>]   start <thresh>   write <value>   stop   Stop
 //   deltemp <dir>   exit
 func verifFileRec() int {
 	// every system call of this driver is made by one OS thread, so that the harness can
@@ -131,6 +131,11 @@ func verifFileRec() int {
 			y, _ := strconv.Atoi(f[4])
 			cam = verifCam{x, y, 9}
 			conf := &Config{OutputDir: f[1], DeviceName: "verif"}
+			if len(f) > 5 {
+				// a configured device name of the given length (the CPTV header takes at most 255 bytes)
+				n, _ := strconv.Atoi(f[5])
+				conf.DeviceName = strings.Repeat("d", n)
+			}
 			rec = NewCPTVFileRecorder(conf, cam, "flir", "lepton3", 1234, "1.2.3")
 			if f[2] == "1" {
 				rec.SetAsConstantRecorder()
